@@ -65,8 +65,9 @@ ASSUMPTIONS = ['relative 1e-9 of value and derivative is measured against max(|e
                'gap ratio is <= 20 and |abscissae| <= 1e3; worse-conditioned tables take part in the bit-exact tie only',
                '"the interpolant changes sign on [xl, xh]" is read as: exact interpolant has opposite signs (beyond 1e-7 '
                'of the data scale) at the two limits after clamping them to the table; root()/minmax() are then required '
-               'to return when the data scale is <= 1e4 (the tolerance 1e-10 is absolute, binary64 cannot resolve it on '
-               'larger values)']
+               'to return when the data scale is <= 1e4 and (largest slope in the bracket) x (spacing of doubles at the '
+               'bracket) <= 1e-11 (the tolerance 1e-10 is absolute; binary64 cannot resolve it on larger values or steeper '
+               'functions at large abscissae)']
 RULE = 'distinct (model function, argument tuple) pairs sent to the binary64/exact model and to the implementation'
 
 TOL = 1e-10
@@ -349,6 +350,18 @@ def _flat_in_bracket(xs, ys, a, b, deriv):
         L = Lag(xx, [L.der(v) for v in xx])
     clo, chi, _, _ = _clamped(xs, a, b)
     return min(abs(float(L.der(clo + (chi - clo) * k / 2000))) for k in range(2001))
+
+
+def resolvable(xs, ys, a, b, deriv):
+    """can binary64 resolve the absolute tolerance 1e-10 in this bracket?  (largest slope of the function whose root
+    is sought) x (spacing of doubles at the bracket) must stay below 1e-11"""
+    L = Lag.of(xs, ys)
+    if deriv:
+        xx = sorted(xs)
+        L = Lag(xx, [L.der(v) for v in xx])
+    clo, chi, _, _ = _clamped(xs, a, b)
+    smax = max(abs(float(L.der(clo + (chi - clo) * k / 40))) for k in range(41))
+    return smax * math.ulp(max(abs(clo), abs(chi), 1e-300)) <= 1e-11
 
 
 def p_root_found(inp):
@@ -725,7 +738,8 @@ def check_table(ctx, rng, xs, ys, klass, nice, coef=None, npairs=24, nprobe=6, w
         clo, chi, _, _ = _clamped(xs, a, b)
         if chi - clo > 1e-9 and wellcond:
             va, vb = L.val(clo), L.val(chi)
-            if va * vb < 0 and min(abs(va), abs(vb)) > 1e-7 * max(sc, 1e-300) and sc <= 1e4 and float(L.dsc()) <= 1e5:
+            if va * vb < 0 and min(abs(va), abs(vb)) > 1e-7 * max(sc, 1e-300) and sc <= 1e4 and float(L.dsc()) <= 1e5 \
+                    and resolvable(xin, yin, a, b, False):
                 P(ctx, 'root_found', [xin, yin, a, b], 'root_found/' + klass)
     if n >= 3:
         dsc = float(L.dsc())
@@ -738,7 +752,8 @@ def check_table(ctx, rng, xs, ys, klass, nice, coef=None, npairs=24, nprobe=6, w
             clo, chi, _, _ = _clamped(xs, a, b)
             if chi - clo > 1e-9 and wellcond:
                 va, vb = L.der(clo), L.der(chi)
-                if va * vb < 0 and min(abs(va), abs(vb)) > 1e-7 * max(dsc, 1e-300) and dsc <= 1e4:
+                if va * vb < 0 and min(abs(va), abs(vb)) > 1e-7 * max(dsc, 1e-300) and dsc <= 1e4 \
+                        and resolvable(xin, yin, a, b, True):
                     P(ctx, 'minmax_found', [xin, yin, a, b], 'minmax_found/' + klass)
     # default limits and a small iteration budget (also exact model: the budget keeps the rationals small)
     out = run_impl(i.root)
